@@ -113,6 +113,77 @@ theorem C01_tie_get_formula (v : Var) (o : Int) (hs : v.formulas.Pairwise (fun a
       · simp [h]
       · simp [h]; cases v.formulas.reverse.find? (fun f => decide (f.1 ≤ o)) <;> rfl
 
+theorem fst_inj_of_nodup : ∀ (l : List (Int × DExpr)), (l.map (·.1)).Nodup → ∀ a ∈ l, ∀ b ∈ l, a.1 = b.1 → a = b := by
+  intro l
+  induction l with
+  | nil => intro _ a ha; cases ha
+  | cons x l ih =>
+    intro hn a ha b hb hab
+    rw [List.map_cons, List.nodup_cons] at hn
+    obtain ⟨hx, hn⟩ := hn
+    rcases List.mem_cons.mp ha with rfl | ha' <;> rcases List.mem_cons.mp hb with rfl | hb'
+    · rfl
+    · exact absurd (List.mem_map.mpr ⟨b, hb', hab.symm⟩) hx
+    · exact absurd (List.mem_map.mpr ⟨a, ha', hab⟩) hx
+    · exact ih hn a ha' b hb' hab
+
+/-- with distinct start dates the formula picked does not depend on the order of the declarations -/
+theorem pick_perm (o : Int) (l1 l2 : List (Int × DExpr)) (hp : l1.Perm l2) (hn : (l1.map (·.1)).Nodup) :
+    l1.foldl (pickStep o) none = l2.foldl (pickStep o) none := by
+  have s1 := pick_fold_spec o l1 none [] (by intro b hb; cases hb) (by intro _ f hf; cases hf)
+  have s2 := pick_fold_spec o l2 none [] (by intro b hb; cases hb) (by intro _ f hf; cases hf)
+  simp only [List.nil_append] at s1 s2
+  cases h1 : l1.foldl (pickStep o) none with
+  | none =>
+    cases h2 : l2.foldl (pickStep o) none with
+    | none => rfl
+    | some b2 =>
+      obtain ⟨m2, le2, _⟩ := s2.1 b2 h2
+      exact absurd le2 (s1.2 h1 b2 (hp.mem_iff.mpr m2))
+  | some b1 =>
+    obtain ⟨m1, le1, mx1⟩ := s1.1 b1 h1
+    cases h2 : l2.foldl (pickStep o) none with
+    | none => exact absurd le1 (s2.2 h2 b1 (hp.mem_iff.mp m1))
+    | some b2 =>
+      obtain ⟨m2, le2, mx2⟩ := s2.1 b2 h2
+      have e : b1.1 = b2.1 := by
+        have := mx1 b2 (hp.mem_iff.mpr m2) le2
+        have := mx2 b1 (hp.mem_iff.mp m1) le1
+        omega
+      rw [fst_inj_of_nodup l1 hn b1 m1 b2 (hp.mem_iff.mpr m2) e]
+
+/-- **tie, any declaration order**: a variable declares its dated formulas in any order, with distinct start
+    dates; the `SortedDict` holds them in ascending order (`sorted`); the model's formula in force — a fold over the
+    declarations as written — is what the current source of `Variable.get_formula` returns from the dictionary -/
+theorem C01_tie_get_formula_any_order (v : Var) (sorted : List (Int × DExpr)) (o : Int)
+    (hperm : v.formulas.Perm sorted) (hs : sorted.Pairwise (fun a b => a.1 < b.1)) :
+    formulaInForce v o = Engine.variable_get_formula sorted v.endOrd o := by
+  have hn : (v.formulas.map (·.1)).Nodup := by
+    have h2 : (sorted.map (·.1)).Nodup := by
+      rw [List.Nodup, List.pairwise_map]
+      exact hs.imp (fun h => by omega)
+    exact (hperm.map (·.1)).nodup_iff.mpr h2
+  have key : formulaInForce v o = formulaInForce { v with formulas := sorted } o := by
+    unfold formulaInForce pickFormula
+    simp only [pick_perm o v.formulas sorted hperm hn]
+  rw [key]
+  exact C01_tie_get_formula { v with formulas := sorted } o hs
+
+/-- what the current source of `get_formula` returns, stated on the code's side: the formula with the greatest
+    start date on or before the instant, nothing past the end date or before the first start -/
+theorem C01_code_get_formula_spec (v : Var) (o : Int) (hs : v.formulas.Pairwise (fun a b => a.1 < b.1)) :
+    (∀ e, Engine.variable_get_formula v.formulas v.endOrd o = some e →
+        (∀ en, v.endOrd = some en → o ≤ en) ∧
+        ∃ s, (s, e) ∈ v.formulas ∧ s ≤ o ∧ ∀ f ∈ v.formulas, f.1 ≤ o → f.1 ≤ s) ∧
+    (Engine.variable_get_formula v.formulas v.endOrd o = none →
+        (∃ en, v.endOrd = some en ∧ en < o) ∨ ∀ f ∈ v.formulas, ¬ f.1 ≤ o) := by
+  rw [← C01_tie_get_formula v o hs]
+  exact C01_formula_in_force v o
+/-- the hypotheses of the any-order tie are met by a declaration written latest-first -/
+example (a b : DExpr) : [((20 : Int), a), (10, b)].Perm [(10, b), (20, a)] ∧
+    [((10 : Int), b), (20, a)].Pairwise (fun x y => x.1 < y.1) :=
+  ⟨List.Perm.swap _ _ _, by simp⟩
+
 /-- the hypothesis is met, and the scan answers, on a concrete variable with two formulas and an end date -/
 example : let fs : List (Int × Nat) := [(10, 1), (20, 2)]
     fs.Pairwise (fun a b => a.1 < b.1) ∧ Engine.variable_get_formula fs (some 30) 25 = some 2 ∧
